@@ -18,6 +18,7 @@ from . import runner
 def _digests(prop_id, master, n, workers):
     from . import boot
     boot.boot()
+    runner.KEEP_DIGESTS = True
     agg = runner.batch(prop_id, 'quick', master, workers=workers, n_runs=n)
     if agg['harness']:
         raise RuntimeError('harness errors in %s: %s' % (prop_id, agg['harness'][:1]))
